@@ -41,7 +41,8 @@ package transport
 //@ func (c *Chunk) record [C15]
 //@ noframe
 //@ requires c.tracked != nil && chunk.ChunkId < MaxUint64
-//@ modifies held(c.mu), entries(c.tracked), allof(tracked.next), allof(tracked.tick), allof(tracked.files)
+//@ modifies held(c.mu), entries(c.tracked), allof(tracked.next), allof(tracked.tick), allof(tracked.files), rsm.gLastAddOK, rsm.gAddCalls
+//@ ensures chunk.ChunkId != 0 ==> rsm.gAddCalls == old(rsm.gAddCalls)
 //@ ensures result != nil && chunk.ChunkId != 0 ==> old(uf("chunkKeyOf", chunk.ShardID, chunk.ReplicaID, chunk.Index) in c.tracked) &&
 //@    result == old(c.tracked[uf("chunkKeyOf", chunk.ShardID, chunk.ReplicaID, chunk.Index)]) &&
 //@    old(result.next) == chunk.ChunkId && result.first.From == chunk.From && result.next == chunk.ChunkId + 1
@@ -74,13 +75,19 @@ package transport
 //@ func (c *Chunk) toMessage [C15]
 //@ trusted builds the InstallSnapshot message from the first chunk and the file list
 //@ func (c *Chunk) reset [C15]
-//@ trusted removes the stream from the tracked table under the lock
+//@ requires c.tracked != nil && held(c.mu) == 0
+//@ modifies held(c.mu), entries(c.tracked)
+//@ ensures !(key in c.tracked) && held(c.mu) == 0
+//@ ensures forall k string :: k != key ==> (k in c.tracked) == old(k in c.tracked) && c.tracked[k] == old(c.tracked[k])
 
 //@ func (c *Chunk) addLocked [C15]
 //@ noframe
 //@ nobounds
-//@ requires c.tracked != nil && chunk.ChunkId < MaxUint64 && !gRecvFinalized && !rsm.gStreamValid
-//@ modifies rsm.gLastAddOK, rsm.gStreamValid, gRecvFinalized, held(c.mu), entries(c.tracked), allof(tracked.next), allof(tracked.tick), allof(tracked.files)
+//@ requires c.tracked != nil && chunk.ChunkId < MaxUint64 && !gRecvFinalized && !rsm.gStreamValid && held(c.mu) == 0
+//@ modifies rsm.gLastAddOK, rsm.gAddCalls, rsm.gStreamValid, gRecvFinalized, held(c.mu), entries(c.tracked), allof(tracked.next), allof(tracked.tick), allof(tracked.files)
+// From the property: a stream with a corrupt chunk never finalizes. A chunk the validator rejects
+// ends its stream: the stream is no longer tracked, so the remaining chunks are ignored.
+//@ ensures chunk.ChunkId != 0 && rsm.gAddCalls > old(rsm.gAddCalls) && !rsm.gLastAddOK ==> !result && !(uf("chunkKeyOf", chunk.ShardID, chunk.ReplicaID, chunk.Index) in c.tracked)
 
 // ---------------------------------------------------------------- TCP frames: a payload is accepted only with a matching checksum (C13)
 // crc32 is uninterpreted; its error-detection power is an assumption, what is proved is that an
